@@ -89,6 +89,9 @@ for _h in ("less", "prefix", "equal"):
 # ---------------------------------------------------------------------------------------------
 V("O13.1", ["C13", "C05"], "c13_arrays", expect_verified=4, functions=["index_set_array", "index_get_array"],
   desc="unbounded length: norm(i) = i<0 ? i+len : i; in range -> Ok and array == old.update(norm, value) (all other elements unchanged) / element returned; else IndexError and array unchanged")
+for _n in range(4):
+  K("O13.1k.%d" % _n, ["C13", "C05"], "vm", "c13_array_bounded_%d" % _n, level="bounded", bound="arrays of length %d, every index in the integer range, symbolic immediate elements" % _n, needs_fmt_stub=True,
+  functions=["index_get_array", "index_set_array"], desc="bounded twin of O13.1 on the real functions (independent of their syntactic form): element norm(i) read / replaced iff in range, IndexError otherwise, no other element changes")
 K("O13.cast", ["C13"], "vm", "c13_cast_contracts", functions=["index_set_array", "index_get_array"],
   desc="the `as usize` / `as isize` casts replaced by helpers in unit c13_arrays (R3) have the helper contract, for all values")
 K("O13.3a", ["C13", "C05"], "vm", "c13_index_get_dispatch", needs_fmt_stub=True, functions=["index_get"],
